@@ -549,7 +549,7 @@ func runOneRL(c rlCase, o *rlOut) {
 			o.count(fmt.Sprintf("snap hs=%v blocked=%d ka=%v kaSent=%v", s.HandshakeComplete, s.Blocked, s.CfgKeepAlivePeriod != 0, s.KeepAlivePingSent))
 			if s.PeerMaxIdleTimeout >= 0 && s.IdleTimeout != 0 && !rc.tp {
 				rc.tp = true
-				o.emit(1, u.App("ParamsCase", u.Z(s.CfgMaxIdleTimeout), u.Z(s.PeerMaxIdleTimeout), u.Z(s.CfgKeepAlivePeriod), u.Z(s.IdleTimeout), u.Z(s.KeepAliveInterval)))
+				o.emit(1, u.App("ParamsCase", u.Z(s.CfgMaxIdleTimeout), u.Z(s.PeerMaxIdleTimeout), u.Z(s.PeerAdvertisedIdle), u.Z(s.CfgKeepAlivePeriod), u.Z(s.IdleTimeout), u.Z(s.KeepAliveInterval)))
 				// monitor: the negotiated idle timeout is the minimum of what both sides configured
 				// (the peer's value travels in milliseconds; the code raises remote values below
 				// protocol.MinRemoteIdleTimeout = 5 s to 5 s, see notes/C17.md)
@@ -557,6 +557,12 @@ func runOneRL(c rlCase, o *rlOut) {
 				if time.Duration(s.IdleTimeout) != want {
 					o.fail("runloop/idle-negotiation", fmt.Sprintf("%s: idleTimeout=%v, configured %v, peer configured %v", rc.name, time.Duration(s.IdleTimeout), time.Duration(s.CfgMaxIdleTimeout), peerIdleOf(rc)))
 				}
+			}
+			// keep-alive must also keep the PEER from timing out: the interval leaves half of the peer's own period
+			if s.CfgKeepAlivePeriod != 0 && s.IdleTimeout != 0 && s.PeerMaxIdleTimeout >= 0 && peerIdleOf(rc) > 0 &&
+				time.Duration(s.KeepAliveInterval) > peerIdleOf(rc).Truncate(time.Millisecond)/2 {
+				o.fail("runloop/keep-alive-exceeds-peer-idle", fmt.Sprintf("%s: keepAliveInterval=%v although the peer times out after %v (KeepAlivePeriod %v, own idle timeout %v)", rc.name,
+					time.Duration(s.KeepAliveInterval), peerIdleOf(rc), time.Duration(s.CfgKeepAlivePeriod), time.Duration(s.CfgMaxIdleTimeout)))
 			}
 			// monitors on the implementation's own numbers (independent of the model):
 			if s.KeepAlivePingSent && s.Now < s.LastPacketReceived+s.KeepAliveInterval {
@@ -977,15 +983,20 @@ func runRunLoop(w *bufio.Writer, seed uint64, n int, args []string) {
 				o.fail("runloop/bad-tls-dial", "Dial with MaxVersion TLS 1.2 succeeded")
 				return
 			}
-			routing, apiClosed := int64(0), false
+			routing, apiClosed := int64(0), "None"
 			for _, c := range quic.VerifTransportConns(e.CliTr) {
 				routing = 3
+				closed := false
 				if _, err := c.OpenUniStream(); err != nil {
 					var sl *quic.StreamLimitReachedError
-					apiClosed = !errors.As(err, &sl)
+					closed = !errors.As(err, &sl)
 				}
+				apiClosed = u.Opt(true, u.B(closed))
 			}
-			o.emit(1, u.App("EarlyExitCase", u.Z(routing), u.B(apiClosed)))
+			if routing != 0 {
+				o.fail("runloop/start-failure-leak", "Dial failed ("+derr.Error()+") but the connection is still registered in the transport")
+			}
+			o.emit(1, u.App("EarlyExitCase", u.Z(routing), apiClosed))
 			time.Sleep(11 * time.Second)
 		})
 		if err != nil {
